@@ -241,7 +241,7 @@ def _stat(fn):
         return None
 
 
-def api_obs(signac, root):
+def api_obs(signac, root, filters=None):
     p = signac.Project(root)
     ids = sorted(j.id for j in p)
     sps = {}
@@ -253,9 +253,34 @@ def api_obs(signac, root):
     q = {}
     try:
         q = {"all": sorted(j.id for j in p.find_jobs()), "len": len(p)}
+        for name, f in (filters or {}).items():
+            # every query in a session of its own: earlier calls of a session fill its in-memory cache and could
+            # hide a dependence of the FIRST query on the persistent cache file
+            q[name] = sorted(j.id for j in signac.Project(root).find_jobs(f))
     except Exception as e:  # noqa
         q = {"err": type(e).__name__}
     return {"ids": ids, "sps": sps, "q": q}
+
+
+def flat_filters(root, dirs):
+    """filters over top-level scalar state point items of the jobs present, with the id sets they select (computed
+    from the raw files: a job matches iff its state point has that key with that JSON-typed value ... restricted
+    to values for which Python == and JSON equality coincide inside the corpus)"""
+    raw = {d: read_sp(root, d)[1] for d in dirs}
+    items = {}
+    for d, sp in raw.items():
+        for k, v in (sp or {}).items():
+            if isinstance(v, (str, int, float, bool)) or v is None:
+                items.setdefault((k, json.dumps(v)), v)
+    out, want = {}, {}
+    for (k, js), v in sorted(items.items()):
+        vals = [sp.get(k, "__absent__") for sp in raw.values() if sp is not None]
+        if any(x == v and json.dumps(x) != js for x in vals if not isinstance(x, (list, dict))):
+            continue        # 1 vs 1.0 vs True under one key: == and JSON equality differ, leave to C06
+        name = "%s=%s" % (k, js)
+        out[name] = {k: v}
+        want[name] = sorted(d for d, sp in raw.items() if sp is not None and k in sp and json.dumps(sp[k]) == js)
+    return out, want
 
 
 def judge_c08(w, st, pre, post, res, val):
@@ -267,16 +292,17 @@ def judge_c08(w, st, pre, post, res, val):
         dirs = job_dirs(root)
         if not all(valid_raw(root, d) for d in dirs):
             continue  # the property speaks about uncorrupted workspaces
-        with_cache = api_obs(w.signac, root)
+        filters, fwant = flat_filters(root, dirs)
+        with_cache = api_obs(w.signac, root, filters)
         if os.path.exists(fc):
             os.rename(fc, fc + ".hidden")
             try:
-                without = api_obs(w.signac, root)
+                without = api_obs(w.signac, root, filters)
             finally:
                 os.rename(fc + ".hidden", fc)
         else:
             without = with_cache
-        truth = {"ids": dirs, "sps": {d: read_sp(root, d)[1] for d in dirs}, "q": {"all": dirs, "len": len(dirs)}}
+        truth = {"ids": dirs, "sps": {d: read_sp(root, d)[1] for d in dirs}, "q": dict({"all": dirs, "len": len(dirs)}, **fwant)}
         if with_cache != truth or without != truth:
             which = "with" if with_cache != truth else "without"
             out.append(("cache-not-transparent:" + op, "API view %s the cache file differs from the workspace after %s: %s" % (which, op, str(with_cache if with_cache != truth else without)[:300])))
